@@ -24,9 +24,7 @@ def toLbl (e : Driver.Ev) : Option Lbl :=
       | some t, some x => some (.wakeDeq t x)
       | _, _ => none
   | "MX_CLEAR_BIT" => e.cur.map (fun t => .clearBit t)
-  | "WAKE_PUSH" => match e.cur, tb with
-      | some t, some x => some (.wakePush t x)
-      | _, _ => none
+  | "WAKE_PUSH" => tb.map (fun x => .wakePush x)
   | _ => none
 
 def relevant (pt : String) : Bool :=
@@ -42,7 +40,7 @@ structure Acc where
 def showPc : PC → String
   | .idle => "idle" | .lretry => "lretry" | .lr s => s!"lr{s}" | .ann => "ann" | .annSw => "annSw"
   | .asleep => "asleep" | .hold => "hold" | .tretry => "tretry" | .tr s => s!"tr{s}"
-  | .uretry => "uretry" | .ur s => s!"ur{s}" | .uw => "uw" | .uc x => s!"uc{x}" | .up x => s!"up{x}"
+  | .uretry => "uretry" | .ur s => s!"ur{s}" | .uw => "uw" | .uc x => s!"uc{x}"
 
 def feed (acc : Acc) (line : String) : Acc :=
   if acc.err.isSome then acc else
